@@ -26,6 +26,23 @@ def main():
         deadline=float(os.environ.get("VERIF_DEADLINE", "0")) or None,
     )
     harness_errors = []
+
+    def _on_term(signum, frame):
+        # the runner's tier time limit: hand over what has been gathered so far (marked truncated) and stop
+        try:
+            st = core.LIVE[-1] if core.LIVE else core.Stats()
+            st.truncated = True
+            res_ = st.to_json()
+            res_["harness_errors"] = list(harness_errors)
+            res_["stopped_at_limit"] = True
+            with open(out + ".tmp", "w") as fh_:
+                json.dump(res_, fh_, default=str)
+            os.replace(out + ".tmp", out)
+        finally:
+            os._exit(0)
+
+    import signal
+    signal.signal(signal.SIGTERM, _on_term)
     if mode in ("replay", "replays"):
         stats = core.Stats()
         if hasattr(mod, "setup"):
